@@ -2,7 +2,7 @@
 From IV Require Import Base.Bytes Base.BytesFacts Model.Policy Model.Smtp Model.Dot Model.SmtpWire Proofs.SmtpInv.
 From Coq Require Import ZifyBool ZifyNat Lia.
 From IV Require Import Proofs.SmtpThms.
-Theorem progress : forall c s l, tls_enabled c = false -> st s <> DATA -> st s <> QUIT ->
+Theorem progress : forall c s l, st s <> DATA -> st s <> QUIT ->
   exists s' r d, step c s (L l) = Ok s' r d.
 Proof. exact SmtpThms.progress. Qed.
 Print Assumptions progress.
